@@ -6,9 +6,9 @@ REPO = os.environ.get("VERIF_REPO", "/repo")
 LEAN = os.path.join(VERIF, "lean")
 HARNESS = os.path.join(VERIF, "harness")
 CACHE = os.path.join(VERIF, ".cache")
-TVH = os.path.join(HARNESS, "target", "debug", "tvh")
+def tvh(slice_): return os.path.join(HARNESS, "target", "debug", "tvh_" + slice_)
+def drv(slice_): return os.path.join(LEAN, ".lake", "build", "bin", "drv_" + slice_)
 EXTRACT = os.path.join(HARNESS, "target", "debug", "extract")
-DRV = os.path.join(LEAN, ".lake", "build", "bin", "drv")
 STD_AXIOMS = {"propext", "Classical.choice", "Quot.sound"}
 ENV = dict(os.environ, CARGO_NET_OFFLINE="true")
 
@@ -100,12 +100,15 @@ def count_obligations(files):
     return n
 
 # ---------------------------------------------------------------- correspondence
-def run_side(binary, slice_, lines, tag):
+def run_side(side, slice_, lines, tag=None):
+    """side: 'impl' (harness binary tvh_<slice>) or 'model' (Lean driver drv_<slice>)"""
+    binary = tvh(slice_) if side == "impl" else drv(slice_)
+    tag = tag or side
     path = os.path.join(CACHE, "in_%s_%s.txt" % (slice_, tag))
     with open(path, "w") as f:
         f.write("\n".join(lines) + "\n")
     with open(path) as fin:
-        p = subprocess.run([binary, slice_], stdin=fin, capture_output=True, text=True, env=ENV)
+        p = subprocess.run([binary], stdin=fin, capture_output=True, text=True, env=ENV)
     if p.returncode != 0:
         raise RuntimeError("%s %s failed: %s" % (binary, slice_, p.stderr[-2000:]))
     out = p.stdout.split("\n")
@@ -114,8 +117,8 @@ def run_side(binary, slice_, lines, tag):
 
 def run_pair(ctx, slice_, lines):
     """feed the same request lines to the implementation harness and to the Lean driver"""
-    impl = run_side(TVH, slice_, lines, "impl")
-    model = run_side(DRV, slice_, lines, "model")
+    impl = run_side("impl", slice_, lines)
+    model = run_side("model", slice_, lines)
     if len(impl) != len(lines) or len(model) != len(lines):
         raise RuntimeError("line count mismatch: %d requests, %d impl, %d model" % (len(lines), len(impl), len(model)))
     return impl, model
@@ -159,14 +162,18 @@ TRUSTED_BASE = [
     "the statement of the property theorems and the Python oracle /verif/tools/props/*.py used for the failing-input search",
 ]
 
-def proof_stage(ctx, prop, proof_targets, proof_files):
+def proof_stage(ctx, prop, proof_targets, proof_files, slices=()):
     """steps 1-2 of a check: translate, prove, audit. Returns dict with status."""
     st = {"tables_ok": True, "proof_ok": True, "audit_ok": True, "broken": []}
     ok, msg = extract_tables(ctx)
     if not ok:
         st["tables_ok"] = False; st["broken"].append("translator: " + msg)
         ctx.log("translator failed:", msg)
-    ok, log = lean_build(ctx, proof_targets + ["drv"])
+    dok, dlog = lean_build(ctx, ["drv_" + x for x in slices]) if slices else (True, "")
+    st["driver_ok"] = dok
+    if not dok:
+        st["broken"].append("model driver does not build: " + ",".join(failing_decls(dlog)))
+    ok, log = lean_build(ctx, proof_targets)
     if not ok:
         st["proof_ok"] = False
         st["broken"] += ["proof obligation fails at " + d for d in failing_decls(log)] or ["lake build failed"]
